@@ -986,5 +986,135 @@ def C10(tier):
                    '%d random histories x %d steps over 5 prefixes (none extending another by "-"), both sides, ttl, ordinary keys' % (nh, steps), cases, bad)]
 
 
+# ====================================================================== check() (C17)
+def _snapshot(d):
+    import sqlite3
+    files = {}
+    dirs = []
+    for dp, dn, fn in os.walk(d):
+        dirs.append(os.path.relpath(dp, d))
+        for f in fn:
+            if 'cache.db' in f:
+                continue
+            files[os.path.relpath(os.path.join(dp, f), d)] = open(os.path.join(dp, f), 'rb').read()
+    con = sqlite3.connect(os.path.join(d, 'cache.db'))
+    rows = con.execute('SELECT rowid, key, raw, size, mode, filename, value FROM Cache ORDER BY rowid').fetchall()
+    sett = con.execute("SELECT key, value FROM Settings WHERE key IN ('count', 'size') ORDER BY key").fetchall()
+    con.close()
+    return files, sorted(dirs), rows, sett
+
+
+def C17(tier):
+    """Damage combinations applied behind the library's back; check(fix=True) then a second check."""
+    import itertools
+    import sqlite3
+    import diskcache
+    damages = ['delete_file', 'truncate', 'extend', 'add_file', 'empty_dir', 'nested_empty', 'count', 'size', 'add_file_deep',
+               'count_as_if_removed', 'size_as_if_removed']
+    combos = [()] + [(x,) for x in damages] + list(itertools.combinations(damages, 2))
+    if tier != 'quick':
+        combos += list(itertools.combinations(damages, 3))
+    bad = None
+    cases = 0
+    for kind in ('Cache', 'Fanout'):
+        for combo in combos:
+            cases += 1
+            d = tempfile.mkdtemp()
+            try:
+                if kind == 'Cache':
+                    c = diskcache.Cache(d, disk_min_file_size=64)
+                    shard_dirs = [d]
+                else:
+                    c = diskcache.FanoutCache(d, shards=2, disk_min_file_size=64)
+                    shard_dirs = [os.path.join(d, '000'), os.path.join(d, '001')]
+                for i in range(8):
+                    c.set('big%d' % i, b'x' * (200 + i))
+                    c.set('small%d' % i, i)
+                c.close()
+                vals = []
+                for sd in shard_dirs:
+                    for dp, dn, fn in os.walk(sd):
+                        vals += [os.path.join(dp, f) for f in fn if f.endswith('.val')]
+                vals.sort()
+                sd = shard_dirs[0]
+                damaged_keys = set()
+                for k, dm in enumerate(combo):
+                    if dm == 'delete_file':
+                        os.remove(vals[0])
+                    elif dm == 'truncate':
+                        open(vals[1], 'wb').write(b'x' * 10)
+                    elif dm == 'extend':
+                        open(vals[2], 'ab').write(b'yy')
+                    elif dm == 'add_file':
+                        open(os.path.join(os.path.dirname(vals[3]), 'stray.val'), 'wb').write(b'junk')
+                    elif dm == 'add_file_deep':
+                        os.makedirs(os.path.join(sd, 'zz', 'yy', 'xx'))
+                        open(os.path.join(sd, 'zz', 'yy', 'xx', 'junk'), 'wb').write(b'junk')
+                    elif dm == 'empty_dir':
+                        os.makedirs(os.path.join(sd, 'empty-q'))
+                    elif dm == 'nested_empty':
+                        os.makedirs(os.path.join(sd, 'nn', 'mm', 'll'))
+                    elif dm in ('count_as_if_removed', 'size_as_if_removed'):
+                        # counters already reduced by what a repair of the deleted file will remove
+                        con = sqlite3.connect(os.path.join(os.path.dirname(os.path.dirname(os.path.dirname(vals[0]))), 'cache.db'))
+                        if dm.startswith('count'):
+                            con.execute("UPDATE Settings SET value = value - 1 WHERE key = 'count'")
+                        else:
+                            con.execute("UPDATE Settings SET value = value - ? WHERE key = 'size'", (200,))
+                        con.commit()
+                        con.close()
+                    elif dm in ('count', 'size'):
+                        con = sqlite3.connect(os.path.join(sd, 'cache.db'))
+                        con.execute('UPDATE Settings SET value = value + 3 WHERE key = ?', (dm,))
+                        con.commit()
+                        con.close()
+                c = diskcache.Cache(d) if kind == 'Cache' else diskcache.FanoutCache(d, shards=2)
+                snaps0 = [_snapshot(x) for x in shard_dirs]
+                w_plain = [str(w.message) for w in c.check()]
+                if [_snapshot(x) for x in shard_dirs] != snaps0:
+                    bad = '%s %r: check() without fix changed the directory or the database' % (kind, combo)
+                    break
+                if bool(combo) != bool(w_plain):
+                    bad = '%s %r: check() reported %r' % (kind, combo, w_plain[:3])
+                    break
+                w_fix = [str(w.message) for w in c.check(fix=True)]
+                kind_of = lambda m: m.split(';')[0] if m.startswith('Settings.') else m
+                missing = [m for m in w_plain if kind_of(m) not in [kind_of(x) for x in w_fix]]
+                if missing:
+                    bad = '%s %r: check(fix=True) did not report %r' % (kind, combo, missing[:2])
+                    break
+                w2 = [str(w.message) for w in c.check()]
+                if w2:
+                    bad = '%s %r: second check still reports %r' % (kind, combo, w2[:3])
+                    break
+                # undamaged items untouched and readable; len agrees
+                n = 0
+                for i in range(8):
+                    if c.get('small%d' % i) != i:
+                        bad = '%s %r: undamaged inline item small%d lost' % (kind, combo, i)
+                    v = c.get('big%d' % i)
+                    if v is not None:
+                        n += 1
+                        if len(v) < 10:
+                            bad = bad or '%s %r: item big%d unreadable' % (kind, combo, i)
+                if bad:
+                    break
+                exp_removed = (1 if 'delete_file' in combo else 0)
+                if len(c) != 16 - exp_removed:
+                    bad = '%s %r: %d items remain, expected %d' % (kind, combo, len(c), 16 - exp_removed)
+                    break
+                c.close()
+            except Exception as e:
+                import traceback
+                bad = '%s %r raised %r %s' % (kind, combo, e, traceback.format_exc()[-300:])
+                break
+            finally:
+                shutil.rmtree(d, ignore_errors=True)
+        if bad:
+            break
+    return [result('C17.standin.damage_combinations', bad is None,
+                   'all subsets of size <= %d of 11 damage kinds (files deleted/truncated/extended/added, empty and nested empty directories, count, size) on Cache and a 2-shard FanoutCache' % (2 if tier == 'quick' else 3), cases, bad)]
+
+
 if __name__ == '__main__':
     main()
